@@ -5,7 +5,7 @@ the variable only if it was marked realized -- on all paths, same index; the
 'already realized' early-return tests the same index; the measure's realize
 hook reaches the update, and its getter reads the slot that was written."""
 from ..facts import extract, extract_split, units_matching, Program, AnalysisBroken, sx_find, sx_str
-from ..match import ev_write, is_call, call_args, call_obj, field_of, var_of, guard_blocks, value_sets
+from ..match import ev_write, is_call, call_args, call_obj, field_of, var_of, guard_blocks, value_sets, expand_locals
 
 UNITS_QUICK = r"SimTKcommon/Simulation/src/Measure\.cpp$"
 UNITS_MORE = r"Simbody/src/(ExponentialSpringForce|CablePath|CableSpan|ContactTrackerSubsystem)\.cpp$"
@@ -158,10 +158,11 @@ def definitions(chk, P):
             continue
         ps = [p_[0] for p_ in f.d["params"]]
         asg = [e for _, _, e in f.events(lambda e: e["k"] == "assign" and var_of(e["lhs"]) == ps[2])]
-        ok = len(asg) == 1 and isinstance(asg[0]["rhs"], list) and asg[0]["rhs"][0] in ("opc", "op") and asg[0]["rhs"][1] == op and len(asg[0]["rhs"]) == 4
-        det = "value = %s" % (sx_str(asg[0]["rhs"])[:90] if asg else None)
+        rhs = expand_locals(f, asg[0]["rhs"]) if len(asg) == 1 else None      # (operand values may be held in named locals)
+        ok = len(asg) == 1 and isinstance(rhs, list) and rhs[0] in ("opc", "op") and rhs[1] == op and len(rhs) == 4
+        det = "value = %s" % (sx_str(rhs)[:90] if asg else None)
         if ok:
-            l, r = asg[0]["rhs"][2], asg[0]["rhs"][3]
+            l, r = rhs[2], rhs[3]
             ok = member(l) == a and member(r) == b
             for x in (l, r):
                 c = sx_find(x, lambda y: y[0] in ("dcall", "call") and last(y[1]) == "getValue")
